@@ -4,26 +4,55 @@ rectangle = 1, the window of n >= 2 frames samples frac(i/(n-1)) and its values 
 Integer part (axiom-free): the Windower model (next / size_hint as written) yields exactly
 (L-b)/h+1 chunks when b <= L and none otherwise, chunk k = frames[k*h .. k*h+b-1], size_hint = the
 number of chunks still to come in every state; Windowed frame j = mul_amp(frame, window value j).
-Tie: correspondence between the model's executable instance over IEEE binary64 / f32 / i16
+Tie 1 (translator): translate/window2coq.py regenerates coq/gen/WindowGen.v from
+dasp_signal/src/window/mod.rs on every run (one Gallina definition per method: Window::new / next,
+Windower::new / next / size_hint, Windowed::next); Signal/WindowGenEquiv.v proves every generated
+definition equal to the hand model's on all inputs (c20_gen_windower_agrees, c20_gen_window_agrees), so
+the schedule theorems are theorems about the regenerated model (restated on it: c20_gen_schedule,
+c20_gen_size_hint, c20_gen_methods, c20_gen_chunk_scaled, c20_gen_window_hann).  TRANSLATED: the
+control flow, the usize arithmetic and comparisons, the slices, the stores, the struct literals, the
+order of the calls, `len as f64 - 1.0` and the calls rate / const_hz / phase.  NOT translated, called as
+hand-written vocabulary (Signal/Window.v, Signal/WindowPrim.v; code outside window/mod.rs): f64 arithmetic
+itself (Coq reals / IEEE binary64), Phase::next_phase, rate / const_hz / phase, from_iter and its Signal::next,
+the window function (Hann via cos, Rectangle: dasp_window), Sample::to_sample, Frame::from_fn / mul_amp.
+Tie 2: correspondence between the model's executable instance over IEEE binary64 / f32 / i16
 (Signal/WindowRun.v, evaluated by coqc) and dasp_signal::window + dasp_window on the same cases;
 libm's cos is taken from the implementation as data and validated against math.cos (same glibc)
-with a 4-ulp tolerance on the cos value."""
-import json, math, os, struct
+with a 4-ulp tolerance on the cos value.
+When the translator rejects the source or the equivalence no longer compiles (DESIGN 5.1/5.3) the first
+broken link is named and the correspondence is the search for a failing input: hand model vs crate, then the
+regenerated model (Signal/WindowGenRun.v) vs crate and vs hand model on the window/windower cases; a failing
+input gives VIOLATION with a replay file, none gives a VIOLATION ending no-failing-input-found that names the
+lemma / the translator error.
+
+Harmless rewrites of the source (decided and tested, translate/test_window2coq.py --coq): the equivalence
+proofs split on every test and close the leaves with lia, so `a <= b` written `b >= a`, `num_frames` for
+`self.frames.len()`, a temporary more or less, comments and layout still PASS.
+
+TESTING ONLY: DASP_WINDOW_RS=<file> makes the translator read that file instead of /repo's window/mod.rs.  The
+harness is still built against /repo, so only the translator side sees the change."""
+import json, math, os, re, struct, sys, time
 from fractions import Fraction
 import framework as F
 import floatbase
+sys.path.insert(0, os.path.join(F.VERIF, "translate"))
+import window2coq as TW  # noqa: E402
 
 PROP = "C20"
 META = dict(
-    technique="Coq proof (reals with the true cos; axiom-free integer schedule by strong induction) + coqc-evaluated IEEE model vs crate correspondence",
-    text="Machine-checked (Coq 8.16.1): over the reals with the true cosine, Hann(p) = 0.5(1-cos 2 pi p) lies in [0,1], is symmetric about 1/2 where it is 1, is 0 at both ends, Rectangle is 1, and the window of n >= 2 frames samples the phases frac(i/(n-1)) (i/(n-1) for i < n-1; the last one wraps 1 -> 0 through `% 1.0`, where Hann takes the same value). Axiom-free, for every frame count L, bin >= 1, hop >= 1: the Windower model (next and size_hint written after the source) yields exactly (L-b)/h+1 chunks if b <= L else none, chunk k is frames[k*h .. k*h+b-1], never panics, and size_hint equals the number of chunks still to come in every state; the j-th frame of a Windowed chunk is mul_amp(frame j, window value j). The model is tied to the crates by running its IEEE instance (binary64 phases, f32/f64/i16 frames) inside coqc on the same cases and comparing phases, window frames, chunk contents, size hints and chunk counts exactly; cos goes through libm and is compared against math.cos with a 4-ulp tolerance.",
-    note="Chunk scaling is exercised in all 14 sample formats through the generated C03 sample operations (Sample/SampleOps.v over gen/ConvFloatGen.v, regenerated on every run) guarded by their specification values (Signal/WindowFmtGen.v), so a wrong conversion in dasp_sample shows up as a disagreement. The provided Iterator methods (last, nth, count, fold, skip, step_by, collect, by_ref) of Windower / Window / Windowed are modelled as their core::iter defaults over next, proved to give chunk count-1 / chunk k / count, and exercised in the correspondence (the cases are transported into coqc as uint63 literals, Signal/WindowWire.v). Trusted: Coq kernel; the hand-written model (slices as lists, usize as nat); Base/Float.v (validated against rustc in the same run); harness + python generators. Axioms: the standard real-number axioms for the R theorems only; the schedule theorems are closed. In floating point the last sampled phase is whatever (n-1) additions of fl(1/(n-1)) give after `% 1.0` (0 or just below 1): covered by the exact comparison of phases, not by the R theorem.",
+    technique="Coq proof (reals with the true cos; axiom-free integer schedule by strong induction) + chunk-schedule model regenerated from the source by a translator and proved equal to the hand model + coqc-evaluated IEEE model vs crate correspondence",
+    text="Machine-checked (Coq 8.16.1): over the reals with the true cosine, Hann(p) = 0.5(1-cos 2 pi p) lies in [0,1], is symmetric about 1/2 where it is 1, is 0 at both ends, Rectangle is 1, and the window of n >= 2 frames samples the phases frac(i/(n-1)) (i/(n-1) for i < n-1; the last one wraps 1 -> 0 through `% 1.0`, where Hann takes the same value). Axiom-free, for every frame count L, bin >= 1, hop >= 1: the Windower model (next and size_hint written after the source) yields exactly (L-b)/h+1 chunks if b <= L else none, chunk k is frames[k*h .. k*h+b-1], never panics, and size_hint equals the number of chunks still to come in every state; the j-th frame of a Windowed chunk is mul_amp(frame j, window value j). Two ties to the source. (1) translate/window2coq.py, a strict translator for the Rust subset the method bodies use, regenerates coq/gen/WindowGen.v from dasp_signal/src/window/mod.rs on every run (Window::new/next, Windower::new/next/size_hint, Windowed::next: control flow, usize arithmetic, slices, stores, struct literals, order of calls; anything outside its grammar, a new/missing/overridden method, changed imports, fields or impl headers is an error) and Coq proves each generated definition equal to the hand model's on all inputs (c20_gen_windower_agrees, c20_gen_window_agrees), so the schedule theorems are about the regenerated model (restated on it: c20_gen_schedule, c20_gen_size_hint, c20_gen_methods, c20_gen_chunk_scaled, c20_gen_window_hann); float arithmetic, Phase::next_phase, from_iter, the window functions and the sample/frame operations stay hand-written vocabulary the generated code calls. (2) The model is tied to the crates by running its IEEE instance (binary64 phases, f32/f64/i16 frames) inside coqc on the same cases and comparing phases, window frames, chunk contents, size hints and chunk counts exactly; cos goes through libm and is compared against math.cos with a 4-ulp tolerance.",
+    note="Chunk scaling is exercised in all 14 sample formats through the generated C03 sample operations (Sample/SampleOps.v over gen/ConvFloatGen.v, regenerated on every run) guarded by their specification values (Signal/WindowFmtGen.v), so a wrong conversion in dasp_sample shows up as a disagreement. The provided Iterator methods (last, nth, count, fold, skip, step_by, collect, by_ref) of Windower / Window / Windowed are modelled as their core::iter defaults over next, proved to give chunk count-1 / chunk k / count, and exercised in the correspondence (the cases are transported into coqc as uint63 literals, Signal/WindowWire.v). Trusted: Coq kernel; translate/window2coq.py + translate/rustmini.py and the vocabulary Signal/WindowPrim.v / Signal/Window.v the generated code is written in (slices as lists, usize as nat, Rate/ConstHz as the f64 they wrap, a Window as its phase, Phase::next_phase, from_iter, Frame::from_fn / mul_amp: code outside window/mod.rs, hand-modelled), validated through the correspondence of the (proved equal) hand model; the caller-side glue Signal/WindowGenGlue.v; Base/Float.v (validated against rustc in the same run); harness + python generators. Axioms: the standard real-number axioms for the R theorems only; the schedule theorems are closed. In floating point the last sampled phase is whatever (n-1) additions of fl(1/(n-1)) give after `% 1.0` (0 or just below 1): covered by the exact comparison of phases, not by the R theorem.",
     design="6/C20")
 HEADER = "From Dasp Require Import Signal.WindowRun."
 CHECK = "check"
 
 HEADER63 = "From Dasp Require Import Signal.WindowWire.\nRequire Import Uint63."
 CHECK63 = "check63"
+GEN_HEADER = "From Dasp Require Import Signal.WindowRun Signal.WindowGenRun."
+GEN_HEADER63 = "From Dasp Require Import Signal.WindowGenRun.\nRequire Import Uint63."
+TEST_WINDOW = os.environ.get("DASP_WINDOW_RS")          # TESTING ONLY, see module docstring
+WINDOW_SRC = TEST_WINDOW or os.path.join(F.REPO, "dasp_signal", "src", "window", "mod.rs")
 WK = ["WHann", "WRect"]
 FK = ["KF32", "KF64", "KI16"]
 PI2 = math.pi * 2.0
@@ -476,7 +505,8 @@ def wire_term(it, obs):
     else:
         k, hdr, data = 2, [it[x] for x in ("wk", "fk", "nch", "b", "h", "np")], it["frames"]
         ops = [[OPCODE[o[0]]] + list(o[1:]) for o in it["ops"]]
-    return f"(({k}, {wl(hdr)}, {wll(data)}, {wll(ops)}, {wll(obs)})%uint63)"
+    # (an empty op list is given its type: a batch of window cases alone has no op anywhere to infer it from)
+    return f"(({k}, {wl(hdr)}, {wll(data)}, {wll(ops) if ops else '(@nil (list int))'}, {wll(obs)})%uint63)"
 
 
 def correspond63(binpath, items, tag):
@@ -508,8 +538,179 @@ def case_dict(it):
     return {k: it[k] for k in ("kind", "wk", "fk", "nch", "b", "h", "maxn", "ops", "frames", "ps", "qs") if k in it}
 
 
+# ---------------------------------------------------------------------------
+# tie 1: regenerate the model from the source, build the proofs, find what broke
+
+
+def regenerate():
+    """coq/gen/WindowGen.v from the current source (written only if changed). -> (names, changed, error)"""
+    try:
+        names, changed = TW.generate(WINDOW_SRC)
+        return names, changed, None
+    except TW.TranslateError as e:
+        return None, False, str(e)
+
+
+TIE_TARGETS = ("gen/WindowGen.vo", "theories/Signal/WindowGenGlue.vo", "theories/Signal/WindowGenEquiv.vo",
+               "theories/Signal/WindowGenEquivR.vo", "theories/Signal/WindowGenExamples.vo")
+
+
+def broken_lemma(log):
+    """every error `make` reported: file, line, enclosing lemma (files of the translator tie first)"""
+    found = []
+    for m in re.finditer(r'File "\./([^"]+)", line (\d+), characters[^\n]*\n((?:(?!File "|make).*\n){0,6})', log):
+        path, line = m.group(1), int(m.group(2))
+        lemma = None
+        try:
+            src = open(os.path.join(F.COQ, path)).read().split("\n")
+            for l in range(min(line, len(src)) - 1, -1, -1):
+                mm = re.match(r"\s*(?:Lemma|Theorem|Example|Definition|Fixpoint)\s+([\w']+)", src[l])
+                if mm:
+                    lemma = mm.group(1)
+                    break
+        except OSError:
+            pass
+        found.append(dict(file="coq/" + path, line=line, lemma=lemma, message=" ".join(m.group(3).split())[:400]))
+    if not found:
+        return dict(file=None, line=None, lemma=None, message=log[-1500:], all=[])
+    rank = lambda f: 0 if "gen/WindowGen" in f["file"] else 1 if "WindowGenGlue" in f["file"] else 2 if "WindowGenEquiv" in f["file"] else 3 if "WindowGen" in f["file"] else 4  # noqa: E731
+    found.sort(key=rank)
+    return dict(found[0], all=[f"{f['file']}:{f['line']} {f['lemma']}" for f in found])
+
+
+def proof_phase(rep, terr):
+    """-> info; info['broken'] (dict) is set when the translator tie or a proof broke: the caller then runs
+    the search and registers the violation"""
+    t = time.time()
+    info = {"coq_ok": False, "theorems": [], "axioms": [], "coq_s": None, "broken": None}
+    if terr is not None:
+        info["broken"] = dict(stage="translator", message="the chunk-schedule model cannot be regenerated from the source: " + terr,
+                              source=WINDOW_SRC)
+        info["coq_s"] = round(time.time() - t, 1)
+        return info
+    ok, log = F.coq_prop_build(PROP)
+    info["coq_ok"] = ok
+    if not ok:
+        # name the FIRST thing that broke along the translator tie (make -j reports whatever failed first)
+        bl = None
+        for tgt in TIE_TARGETS:
+            ok2, log2 = F.coq_make(tgt)
+            if not ok2:
+                bl = broken_lemma(log2)
+                break
+        if bl is None:
+            bl = broken_lemma(log)
+        f = bl.get("file") or ""
+        if "gen/WindowGen.v" in f:
+            stage, what = "generated_model", "the model regenerated from the source does not type-check in Coq (the body of a method no longer has the representation its declared Rust type needs)"
+        elif "WindowGenGlue" in f:
+            stage, what = "generated_model", "the iteration drivers over the regenerated methods (Signal/WindowGenGlue.v) do not type-check: a regenerated method changed its type"
+        elif "WindowGenEquiv" in f:
+            stage, what = "equivalence", f"the method regenerated from the source is no longer provably equal to the hand model: lemma {bl.get('lemma')}"
+        elif "WindowGenExamples" in f:
+            stage, what = "equivalence", f"the regenerated model no longer computes the documented example: {bl.get('lemma')}"
+        else:
+            stage, what = "proof", f"proof obligation no longer checks: {bl.get('lemma')}"
+        info["broken"] = dict(stage=stage, message=what, broken_lemma=bl.get("lemma"), file=bl.get("file"), line=bl.get("line"),
+                              coq_message=bl.get("message"), all_broken=bl.get("all", []), target="coq/props/C20.vo",
+                              source=WINDOW_SRC)
+        info["coq_s"] = round(time.time() - t, 1)
+        return info
+    problems, ainfo = F.coq_audit(PROP, log, F.AX_REALS)
+    info.update(ainfo)
+    info["coq_s"] = round(time.time() - t, 1)
+    if problems:
+        rep.violation("audit", {"kind": "audit of the Coq development failed", "problems": problems}, no_input=True)
+    return info
+
+
+def gen_search(rep, binpath, items, outl, broken):
+    """the regenerated model (Signal/WindowGenRun.v) on the window / windower cases of the correspondence: against
+    the crate's observations and against the hand model.  -> (n_cases, n_failing, n_vs_crate, n_vs_hand, note) -- the last
+    two among the (at most 120) smallest failing cases -- and registers a VIOLATION with replay for the first failing input"""
+    ok, log = F.coq_make("theories/Signal/WindowGenRun.vo")
+    if not ok:
+        return 0, None, None, None, "the regenerated model does not compile, it cannot be run: " + " ".join(log[-600:].split())
+    # the window / windower cases, cheapest first (frames x bin), at most 1200 of them: every class of (L, bin, hop) of
+    # the grid occurs among the small ones, and a failure run should not take many times longer than a passing one
+    keep = sorted((i for i, it in enumerate(items) if it["kind"] == "W"),
+                  key=lambda i: ((len(items[i]["ops"]) + 1) * (items[i]["b"] + 2) * items[i]["nch"], i))[:1200]
+    items, outl = [items[i] for i in keep], [outl[i] for i in keep]
+    try:
+        terms = [wire_term(it, F.norm_obs_line(o)) for it, o in zip(items, outl)]
+    except ValueError as e:
+        return len(items), None, None, None, f"unparsable observation line: {e}"
+    pf = max(40, (len(terms) + F.NCPU - 1) // F.NCPU)
+    bad_any, e1 = F.coq_check_cases("c20_gen", GEN_HEADER63, "both63_gen", terms, per_file=pf)
+    if e1:
+        return len(items), None, None, None, "the regenerated model could not be evaluated: " + str(e1[0])[:600]
+    # which of the two comparisons fails is decided on the smallest failing cases only (in the property's domain first)
+    dom = lambda i: (not (items[i]["b"] >= 2 and items[i]["h"] >= 1), len(items[i]["ops"]), items[i]["b"], items[i]["h"])  # noqa: E731
+    n_any = len(bad_any)
+    bad_any = sorted(bad_any, key=dom)[:120]
+    sub = [terms[i] for i in bad_any]
+    bc, e1 = F.coq_check_cases("c20_gen_crate", GEN_HEADER63, "check63_gen", sub, per_file=pf)
+    bh, e2 = F.coq_check_cases("c20_gen_hand", GEN_HEADER63, "agree63_gen", sub, per_file=pf)
+    if e1 or e2:
+        return len(items), None, None, None, "the regenerated model could not be evaluated: " + str((e1 + e2)[0])[:600]
+    bad_crate, bad_hand = [bad_any[i] for i in bc], [bad_any[i] for i in bh]
+    for tag, bad, fn, what in (("crate", bad_crate, "check63_gen", "the crate"), ("hand", bad_hand, "agree63_gen", "the hand model")):
+        if not bad:
+            continue
+        # the smallest failing case in the property's domain (fewest frames), then shrink its frame list
+        idx = min(bad, key=dom)
+        it = items[idx]
+
+        def fails(c):
+            rc, o, _ = F.run_bin(binpath, [c["line"]])
+            if rc != 0 or len(o) != 1:
+                return False
+            try:
+                b, e = F.coq_check_cases("c20_gen_shrink", GEN_HEADER63, fn, [wire_term(c, F.norm_obs_line(o[0]))])
+            except ValueError:
+                return False
+            return bool(b) and not e
+
+        small = F.shrink_ops(it, build, fails, max_steps=10)
+        rc, out, _ = F.run_bin(binpath, [small["line"]])
+        obs = F.zlistlist(F.norm_obs_line(out[0]) if out else [])
+        _, gmodel = F.coq_eval("c20", GEN_HEADER, f"run_case_gen ({small['coq']}) {obs}")
+        _, hmodel = F.coq_eval("c20", GEN_HEADER, f"run_case ({small['coq']}) {obs}")
+        rep.violation(f"generated_vs_{tag}_case{keep[idx]}", {
+            "kind": f"the model regenerated from {WINDOW_SRC} disagrees with {what} on this case "
+                    "(the source no longer computes what the proved model computes; or a translator fault)",
+            "why": broken, "case": case_dict(small), "model": "generated", "against": tag,
+            "harness_line": small["line"], "implementation_observations": out,
+            "generated_model_observations": gmodel[-3000:], "hand_model_observations": hmodel[-3000:],
+            "observation_format": "1 lo 1 hi = size_hint (lo, Some(hi)); 2 samples.. = the first bin+2 frames of a chunk; 3 = None; 8 k = panic; 100 = window phases, 101 = window values, 102/104 = Window iterator frames",
+            "failing_cases_in_this_run": n_any, "of_the_smallest_120_failing": {"against_the_crate": len(bad_crate), "against_the_hand_model": len(bad_hand)},
+            "cases_run_on_the_generated_model": len(items),
+            "replay": "./check.py C20 --replay <this file>"})
+        break
+    return len(items), n_any, len(bad_crate), len(bad_hand), None
+
+
 def main(rep, tier, seed):
     rng = F.Rng(seed)
+    t0 = time.time()
+    names, regenerated_w, terr_w = regenerate()
+    tinfo = {"source": WINDOW_SRC, "generated_files": ["coq/gen/WindowGen.v"], "rewritten": list(regenerated_w or []),
+             "definitions": list(names or []), "translate_s": round(time.time() - t0, 2), "error": terr_w}
+    if terr_w is None:
+        # self-test of "never silently skipped": single-token edits of the method bodies must be rejected or change the output
+        try:
+            sens = TW.sensitivity(open(WINDOW_SRC).read())
+        except (TW.TranslateError, OSError) as e:
+            sens = dict(sites=0, tried=0, rejected=0, changed=0, ignored=[f"self-test failed: {e}"])
+        tinfo["sensitivity_self_test"] = dict(single_token_edits=sens["tried"], rejected=sens["rejected"],
+                                              change_the_generated_model=sens["changed"], ignored=len(sens["ignored"]))
+        tinfo["translate_s"] = round(time.time() - t0, 2)
+        if sens["ignored"]:
+            rep.violation("translator_insensitive", {"kind": "translate/window2coq.py ignores part of a method body: an edit of the source leaves the generated model unchanged",
+                                                    "edits": sens["ignored"][:20]}, no_input=True)
+    if TEST_WINDOW:
+        rep.notes.append(f"note: DASP_WINDOW_RS={TEST_WINDOW} (testing mode: the translator reads this file instead of /repo's "
+                         "window/mod.rs; the harness is still built against /repo, only the translator side sees the change)")
     # the generated sample conversions / companion table the all-formats cases run through (same helper as C03)
     try:
         from props import c03
@@ -518,8 +719,10 @@ def main(rep, tier, seed):
         terr, regenerated = f"{type(e).__name__}: {e}", []
     if terr:
         rep.violation("translate", {"kind": "model cannot be regenerated: the translators do not recognise the current dasp_sample sources (the committed generated model is used for the rest of this run)", "error": terr}, no_input=True)
-    info = F.standard_proof_phase(rep, PROP, allowed_axioms=F.AX_REALS)
+    info = proof_phase(rep, terr_w)
     info["regenerated"] = regenerated
+    info["translator"] = tinfo
+    broken = info.get("broken")
     fb_n, fb_bad, fb_err = floatbase.run(rng.fork("floatbase"), 400 if tier == "quick" else 3000)
     for name, msg in fb_err:
         rep.violation("floatbase_error", {"kind": "float base validation could not be evaluated", "where": name, "log": msg}, no_input=True)
@@ -528,6 +731,8 @@ def main(rep, tier, seed):
     ok, blog, binpath = F.harness_build("c20")
     if not ok:
         rep.violation("harness_build", {"kind": "harness does not build against /repo", "log": blog[-4000:]}, no_input=True)
+        if broken:
+            rep.violation("translator_tie_broken", dict(kind=broken["message"], **broken), no_input=True)
         return finish(rep, info, 0, 0, {}, [], fb=(fb_n, len(fb_bad)))
     corpus = load_corpus()
     items, parts = gen_cases(rng, tier)
@@ -563,10 +768,31 @@ def main(rep, tier, seed):
         _, model = F.coq_eval("c20", HEADER, f"run_case ({small['coq']}) {F.zlistlist(F.norm_obs_line(out[0]) if out else [])}")
         rep.violation(f"case{idx}", {
             "kind": "model/implementation disagreement: dasp_signal::window does not behave as the proved window/windower model",
-            "case": case_dict(small), "harness_line": small["line"], "implementation_observations": out,
+            "case": case_dict(small), **({"why": broken} if broken else {}), "harness_line": small["line"], "implementation_observations": out,
             "model_observations": model[-3000:], "original_case_index": idx,
             "poison_values": "in model_observations -2^201 marks a value where the conversion regenerated from the current dasp_sample source disagrees with its specification (amp/2^(bits-1) correctly rounded; trunc(f*2^(bits-1)) re-offset, saturating), -2^200 a panic of the generated model",
             "replay": "./check.py C20 --replay <this file>"})
+    # the translator tie broke: the correspondence above was the search at implementation level (hand model and
+    # property verdict against the crate); now the regenerated model itself (when there is one) on the same cases
+    if broken:
+        search = {"hand_model_vs_crate_failing": len(bad), "verdict_failures": len(vbad), "cases": len(items)}
+        found = bool(bad) or bool(vbad)
+        if broken["stage"] in ("equivalence", "proof") and not errors:
+            ng, na, nc, nh, note = gen_search(rep, binpath, items, outl, broken)
+            search.update(cases_run_on_the_generated_model=ng, generated_model_failing=na, of_the_smallest_120_vs_crate=nc, of_the_smallest_120_vs_hand_model=nh, note=note)
+            found = found or bool(na)
+        if not found:
+            rep.violation("translator_tie_broken", dict(
+                kind=broken["message"] + " -- and no failing input was found: the hand model still agrees with the crate on every case"
+                     + (", and so does the regenerated model" if search.get("generated_model_failing") == 0 else ""),
+                search=search, **broken), no_input=True)
+        info["search"] = search
+    elif tier == "thorough" and not errors and not bad:
+        # the search tool itself is exercised while nothing is broken: the runner of the generated model must agree everywhere
+        ng, na, nc, nh, note = gen_search(rep, binpath, items, outl, dict(stage="none", message="self-test of the generated-model runner: the equivalence is proved, yet the runner of the generated model disagrees (fault in Signal/WindowGenRun.v or lib/props/c20.py)"))
+        info["generated_runner_self_test"] = dict(cases=ng, generated_model_failing=na, note=note)
+        if note:
+            rep.violation("generated_runner", {"kind": "the runner of the generated model could not be evaluated", "log": note}, no_input=True)
     # distribution
     hist = {"count": {}, "class": {}, "window": {}, "format": {}, "bin": {}}
 
@@ -614,13 +840,16 @@ def finish(rep, info, n, nontriv, dist, samples, bad=(), vbad=(), fb=(0, 0)):
     th = info.get("theorems", [])
     cov = {
         "obligations": max(1, len(th)), "discharged": len(th) if info.get("coq_ok") else 0,
-        "checker_cmd": "make -f Makefile.coq props/C20.vo (coqc 8.16.1, full .vo) + Print Assumptions audit",
+        "checker_cmd": "translate/window2coq.py /repo/dasp_signal/src/window/mod.rs > coq/gen/WindowGen.v; make -f Makefile.coq props/C20.vo (coqc 8.16.1, full .vo) + Print Assumptions audit",
         "trusted_base": F.TRUSTED_COMMON + [
             "axioms: the real-number theorems use only Coq's standard real-number axioms (ClassicalDedekindReals.sig_forall_dec, sig_not_dec, functional_extensionality_dep; Classical_Prop.classic if reported); every schedule theorem is closed under the global context",
             "modelled, not verified: Rust slices as lists, usize as nat (no value near 2^64), Base/Float.v as IEEE-754 binary32/64 (validated against rustc in this run)",
+            "translate/window2coq.py + translate/rustmini.py (Rust method bodies of window/mod.rs -> Gallina: evaluation order, control flow, state threading) and the vocabulary the generated code is written in, hand-modelled after code OUTSIDE window/mod.rs (Signal/WindowPrim.v, Signal/Window.v): Rate/ConstHz as the f64 they wrap, rate / const_hz / phase / Phase::next_phase, from_iter and its Signal::next, Frame::from_fn / mul_amp, Sample::to_sample and the window function as parameters, f64 arithmetic as the record [arith]; the caller-side glue Signal/WindowGenGlue.v (next until None, nth/last/count as the core::iter defaults); validated through the correspondence of the (proved equal) hand model",
             "translators translate/conv2coq.py, sampletable2coq.py (generated sample conversions used by the all-format cases; each result is additionally compared with its ConvSpec specification value)",
             "libm cos: taken from the implementation as data in the model run; validated against python math.cos (same glibc) with a 4-ulp tolerance on the cos value"],
         "theorems": th, "axioms_reported": info.get("axioms", []),
+        "translator": info.get("translator", {}), "translator_tie_broken": info.get("broken"), "search": info.get("search"),
+        "generated_runner_self_test": info.get("generated_runner_self_test"),
         "evaluations": n, "distinct_nontrivial": nontriv,
         "rule": "grid L=0..40 x bin=2..9 x hop (quick: structured subset {1,b,L-b,L,L+1}+{2,L-b+1} or {b+1,L-1,45}+2 random, hop 1 and 2 only for L<=20 or L%4=0; thorough: all 1..45), window and frame format rotating over {Hann,Rectangle} x {f32,f64,i16} x {1,2 channels}; plus larger random (L<=150, bin<=64), off-domain (bin<2, hop=0), window-function cases, all-format cases (each of the 14 sample formats x 1/2/3 channels x rectangle and odd-bin Hann, samples at/near the rails and near equilibrium placed where the window value is exactly 1.0; the model's sample operations are the conversions regenerated from dasp_sample, every result compared with its ConvSpec value; Window::<F,W> frames in the frame's own format) and provided-Iterator-method cases (last, nth, count, fold, skip, step_by, collect, by_ref().last()/count() on Windower with size_hint after every op; nth, skip, take(n).last(), step_by on Window and Windowed; 70% of them with (L-bin) % hop != 0 and at least two chunks); non-trivial = bin>=2, hop>=1 and (L >= bin+hop, i.e. at least two chunks, or L == bin)",
         "samples": samples, "input_distribution": dist, "disagreements": len(bad), "verdict_failures": len(vbad),
@@ -628,15 +857,40 @@ def finish(rep, info, n, nontriv, dist, samples, bad=(), vbad=(), fb=(0, 0)):
     }
     return rep.finish("proof", cov, [
         "Rust slices are modelled as lists and usize as unbounded nat",
+        "the translator is faithful (validated by the correspondence, not proved); what it calls instead of translating (f64 arithmetic, Phase, FromIterator, the window functions, sample / frame operations) is hand-modelled",
         "the R theorems speak about exact arithmetic; the IEEE behaviour of the phase accumulator and of mul_amp is covered by the correspondence only",
         "libm cos is assumed deterministic (same input, same output) and within 4 ulp of glibc's cos as seen from python"])
 
 
 def replay(path):
     j = json.load(open(path))
+    if "case" not in j:
+        print("this replay file names a broken lemma / translator error and has no input; re-run ./check.py C20")
+        print(json.dumps({k: j.get(k) for k in ("kind", "stage", "broken_lemma", "file", "line", "coq_message", "message", "edits", "problems")}, indent=1))
+        return 1
     it = build(j["case"])
     ok, blog, binpath = F.harness_build("c20")
     rc, out, _ = F.run_bin(binpath, [it["line"]])
+    if j.get("model") == "generated":
+        names, regenerated, terr = regenerate()
+        if terr:
+            print("translator:", terr)
+            return 1
+        okb, logb = F.coq_make("theories/Signal/WindowGenRun.vo")
+        if not okb:
+            print("the regenerated model does not compile:", logb[-1500:])
+            return 1
+        obs = F.zlistlist(F.norm_obs_line(out[0]) if out else [])
+        _, gmodel = F.coq_eval("c20", GEN_HEADER, f"run_case_gen ({it['coq']}) {obs}")
+        _, hmodel = F.coq_eval("c20", GEN_HEADER, f"run_case ({it['coq']}) {obs}")
+        print("case:", it["line"])
+        print("implementation:", out)
+        print("generated model:", gmodel)
+        print("hand model:", hmodel)
+        fn = "agree63_gen" if j.get("against") == "hand" else "check63_gen"
+        bad, errs = F.coq_check_cases("c20_replay", GEN_HEADER63, fn, [wire_term(it, F.norm_obs_line(out[0]) if out else [])])
+        print("AGREE" if not bad and not errs else "DISAGREE")
+        return 1 if bad or errs else 0
     _, model = F.coq_eval("c20", HEADER, f"run_case ({it['coq']}) {F.zlistlist(F.norm_obs_line(out[0]) if out else [])}")
     print("case:", it["line"])
     print("implementation:", out)
